@@ -22,7 +22,7 @@ UNINIT = "<unbound>"
 
 
 class ScopeModel:
-    VISITOR_METHODS = ("visit_If", "visit_While", "visit_For", "_handle_loop_else", "visit_Try", "visit_try_except", "visit_Break", "visit_Continue", "_subscope_and_maybe_supress")
+    VISITOR_METHODS = ("visit_If", "visit_While", "visit_For", "_handle_loop_else", "visit_Try", "visit_try_except", "visit_Break", "visit_Continue", "_subscope_and_maybe_supress", "visit_With", "visit_single_cm")
     OPTIONAL_VISITOR_METHODS = ("_combine_with_previous_iteration",)
     SCOPE_METHODS = ("set", "get_local", "subscope", "loop_scope", "suppressing_subscope", "get_combined_scope", "combine_subscopes", "get_all_definition_nodes", "_add_composite")
     STACK_METHODS = ("get", "get_with_scope", "set", "subscope", "loop_scope", "suppressing_subscope", "combine_subscopes", "current_scope")
@@ -47,6 +47,10 @@ class ScopeModel:
             if m not in fs.methods:
                 raise AnchorError(f"FunctionScope.{m} not found")
             self.method_defs[("FunctionScope", m)] = fs.methods[m]
+        # every other method of FunctionScope is interpreted too when something calls it (value computation is stubbed)
+        for m, fn in fs.methods.items():
+            if m not in ("resolve_reference", "_get_value_from_nodes", "_resolve_origin", "__init__"):
+                self.method_defs.setdefault(("FunctionScope", m), fn)
         sc = prog.classes_by_qual.get(("stacked_scopes", "Scope")) if hasattr(prog, "classes_by_qual") else None
         sc = sc or prog.cls("Scope")
         self.method_defs[("FunctionScope", "get")] = sc.methods["get"]
@@ -107,7 +111,7 @@ class ScopeModel:
 
         def visit(node: Any) -> Any:
             it = holder[0]
-            if isinstance(node, (ast.If, ast.While, ast.For, ast.Try, ast.Break, ast.Continue)):
+            if isinstance(node, (ast.If, ast.While, ast.For, ast.Try, ast.Break, ast.Continue, ast.With)):
                 md = self.method_defs[("NameCheckVisitor", "visit_" + type(node).__name__)]
                 return it.call_def(md, [visitor, node], md)
             if isinstance(node, ast.Assign):
@@ -132,6 +136,8 @@ class ScopeModel:
                 return None
             if isinstance(node, ast.Expr) and isinstance(node.value, ast.Call):
                 return None  # an opaque call: no effect on the scopes, may raise
+            if isinstance(node, ast.Call):
+                return Obj("Value")  # the context expression of a with statement
             raise AnchorError(f"scope model: statement {type(node).__name__} is outside the generated grammar")
 
         def generic_visit_list(stmts: Any) -> None:
@@ -154,6 +160,8 @@ class ScopeModel:
             constraint_from_condition=constraint_from_condition, add_constraint=lambda node, c: None,
             catch_errors=nop_cm, _member_value_of_iterator=lambda node, is_async=False: Obj("Value"),
             _is_collecting=lambda: True,
+            # `with suppress():` may swallow exceptions, any other context manager of the grammar may not
+            visit_withitem=lambda item, is_async=False: isinstance(item.context_expr, ast.Call) and isinstance(item.context_expr.func, ast.Name) and item.context_expr.func.id == "suppress",
         )
 
         def get_boolability(args: List[Any]) -> Any:
@@ -297,6 +305,13 @@ class Reaching:
             # also as an exit that does not run the else block
             skip_else = [dict(head)] if (self.liberal and head is not None and s.orelse) else []
             return _join([after_else] + breaks + skip_else), b2, c2
+        if isinstance(s, ast.With):
+            suppressing = isinstance(s.items[0].context_expr, ast.Call) and getattr(s.items[0].context_expr.func, "id", "") == "suppress"
+            if not suppressing:
+                return self.block(s.body, dict(st), exc)
+            mine_w: List[State] = []
+            out, b, c = self.block(s.body, dict(st), exc + [mine_w])
+            return _join([out] + mine_w), b, c
         if isinstance(s, ast.Try):
             mine: List[State] = []
             body_out, b0, c0 = self.block(s.body, dict(st), exc + [mine])
@@ -363,6 +378,10 @@ def _blocks(depth: int, budget: int, counter: List[int], in_loop: bool) -> Itera
                     if head == "while True:" and e:
                         continue
                     yield [head] + ["    " + l for l in a] + (["else:"] + ["    " + l for l in e] if e else [])
+        with_body = [["x = {n}", "g()", "y = {n}"], ["g()", "x = {n}"], ["x = {n}", "break"] if in_loop else ["x = {n}", "return"], ["x = {n}", "g()", "continue"] if in_loop else ["x = {n}"]]
+        for head in ("with suppress():", "with cm():"):
+            for a in with_body:
+                yield [head] + ["    " + l for l in a]
         try_body = [["x = {n}"], ["x = {n}", "g()", "y = {n}"], ["g()", "x = {n}"], ["x = {n}", "return"], ["x = {n}", "break"] if in_loop else ["x = {n}", "g()", "x = {n}"]]
         for a in try_body:
             for h in (["pass"], ["x = {n}"], ["x"], ["return"]):
@@ -385,6 +404,18 @@ def programs(step: int = 3) -> Iterator[str]:
             out.append("    " + l)
         return "def f():\n" + "\n".join(out) + "\n"
 
+    # always included, whatever the sampling step: the shapes of the recorded findings
+    for pinned in (
+        ["y = {n}", "while c:", "    try:", "        break", "    finally:", "        y = {n}", "y"],
+        ["y = {n}", "for i in it:", "    try:", "        continue", "    finally:", "        y = {n}", "y"],
+        ["for i in it:", "    if c:", "        x = {n}", "        break", "    else:", "        x", "    x", "x"],
+        ["x = {n}", "while c:", "    if c:", "        x = {n}", "        break", "else:", "    x", "x"],
+        ["try:", "    try:", "        x = {n}", "        return", "    except E:", "        return", "    finally:", "        y = {n}", "    y = {n}", "except E:", "    x", "finally:", "    y", "y"],
+        ["y = {n}", "while c:", "    y = {n}", "else:", "    y", "y"],
+        ["while c:", "    x", "    x = {n}", "else:", "    x = {n}", "x"],
+        ["while True:", "    x", "    x = {n}"],
+    ):
+        yield render(pinned)
     constructs = [b for b in _blocks(1, 3, counter, False) if len(b) > 1]
     for pre in ([], ["x = {n}"], ["x = {n}", "y = {n}"]):
         for c in constructs:
@@ -394,6 +425,22 @@ def programs(step: int = 3) -> Iterator[str]:
     for c in loop_constructs[::step]:
         yield render(["x = {n}", "while c:"] + ["    " + l for l in c] + ["    y"] + ["else:", "    x"] + ["x", "y"])
         yield render(["for i in it:"] + ["    " + l for l in c] + ["    x"] + ["x", "y"])
+    # an abrupt exit directly in a with body, overwritten on the fall-through path
+    for head in ("with suppress():", "with cm():"):
+        for loop in ("while c:", "while True:", "for i in it:"):
+            for leave in ("break", "continue"):
+                for pre in ([], ["x = {n}"]):
+                    yield render(pre + [loop, "    " + head, "        x = {n}", "        " + leave, "    x = {n}", "x"])
+                    yield render(pre + [loop, "    " + head, "        x = {n}", "        g()", "        " + leave, "    x = {n}", "x"])
+        for pre in ([], ["y = {n}"]):
+            yield render(pre + ["if c:", "    y = {n}", "    while True:", "        " + head, "            x = {n}", "            break", "else:", "    x = {n}", "x", "y"])
+    # statements after a jump in the same block are dead: they must not hide what the jump carries out
+    for loop in ("while c:", "while True:", "for i in it:"):
+        for leave in ("break", "continue"):
+            for pre in ([], ["x = {n}"]):
+                yield render(pre + [loop, "    x = {n}", "    " + leave, "    x = {n}", "x"])
+                yield render(pre + [loop, "    if c:", "        x = {n}", "        " + leave, "        x = {n}", "    x", "x"])
+                yield render(pre + [loop, "    try:", "        x = {n}", "        " + leave, "        x = {n}", "    except E:", "        pass", "    x", "x"])
     for c in constructs[::step]:
         yield render(["try:"] + ["    " + l for l in c] + ["    y = {n}", "except E:", "    x", "finally:", "    y"] + ["x", "y"])
         yield render(["if c:"] + ["    " + l for l in c] + ["else:", "    x = {n}"] + ["x", "y"])
